@@ -77,27 +77,27 @@ TIES = [
     ('merger_next', 'mtbl/merger.c', 'merger_iter_next', ALL, ['C04', 'C05']),
     ('merger_compare', 'mtbl/merger.c', '_mtbl_merger_compare', ALL, ['C04']),
     ('merger_entry_fill', 'mtbl/merger.c', 'entry_fill', ALL, ['C04', 'C05']),
-    ('merger_iter_init', 'mtbl/merger.c', 'merger_iter_init', ALL, ['C04', 'C05']),
+    ('merger_iter_init', 'mtbl/merger.c', 'merger_iter_init', ALL, ['C04', 'C05', 'C18']),
     ('heap_siftup', 'libmy/heap.c', 'siftup', ALL, ['C04', 'C05']),
     ('heap_siftdown', 'libmy/heap.c', 'siftdown', ALL, ['C04', 'C05']),
     ('heap_heapify', 'libmy/heap.c', 'heap_heapify', ALL, ['C05']),
     ('heap_pop', 'libmy/heap.c', 'heap_pop', ALL, ['C04', 'C05']),
     ('heap_replace', 'libmy/heap.c', 'heap_replace', ALL, ['C04', 'C05']),
-    ('sorter_add', 'mtbl/sorter.c', 'mtbl_sorter_add', ALL, ['C06']),
+    ('sorter_add', 'mtbl/sorter.c', 'mtbl_sorter_add', ALL, ['C06', 'C18']),
     ('sorter_iter', 'mtbl/sorter.c', 'mtbl_sorter_iter', ALL, ['C06', 'C14', 'C18']),
-    ('sorter_write', 'mtbl/sorter.c', 'mtbl_sorter_write', ALL, ['C06']),
+    ('sorter_write', 'mtbl/sorter.c', 'mtbl_sorter_write', ALL, ['C06', 'C18']),
     ('sorter_write_chunk', 'mtbl/sorter.c', '_mtbl_sorter_write_chunk', ALL, ['C06', 'C18']),
-    ('sorter_flush', 'mtbl/sorter.c', '_mtbl_sorter_flush', ALL, ['C06', 'C13']),
+    ('sorter_flush', 'mtbl/sorter.c', '_mtbl_sorter_flush', ALL, ['C06', 'C13', 'C18']),
     ('sorter_compare', 'mtbl/sorter.c', '_mtbl_sorter_compare', ALL, ['C06']),
     ('sorter_destroy', 'mtbl/sorter.c', 'mtbl_sorter_destroy', ALL, ['C18', 'C13']),
-    ('fileset_reload', 'mtbl/fileset.c', 'mtbl_fileset_reload', ALL, ['C07']),
-    ('fileset_reload_now', 'mtbl/fileset.c', 'mtbl_fileset_reload_now', ALL, ['C07']),
-    ('fileset_iter_init', 'mtbl/fileset.c', 'fileset_iter_init', ALL, ['C07']),
-    ('fileset_iter_free', 'mtbl/fileset.c', 'fileset_iter_free', ALL, ['C07']),
-    ('fileset_reinit_merger', 'mtbl/fileset.c', 'fs_reinit_merger', ALL, ['C07']),
-    ('my_fileset_reload', 'libmy/my_fileset.c', 'my_fileset_reload', ALL, ['C07']),
+    ('fileset_reload', 'mtbl/fileset.c', 'mtbl_fileset_reload', ALL, ['C07', 'C18']),
+    ('fileset_reload_now', 'mtbl/fileset.c', 'mtbl_fileset_reload_now', ALL, ['C07', 'C18']),
+    ('fileset_iter_init', 'mtbl/fileset.c', 'fileset_iter_init', ALL, ['C07', 'C18']),
+    ('fileset_iter_free', 'mtbl/fileset.c', 'fileset_iter_free', ALL, ['C07', 'C18']),
+    ('fileset_reinit_merger', 'mtbl/fileset.c', 'fs_reinit_merger', ALL, ['C07', 'C18']),
+    ('my_fileset_reload', 'libmy/my_fileset.c', 'my_fileset_reload', ALL, ['C07', 'C18']),
     ('my_fileset_updated', 'libmy/my_fileset.c', 'setfile_updated', ALL, ['C07']),
-    ('reader_init_fd', 'mtbl/reader.c', 'mtbl_reader_init_fd', ALL, ['C19']),
+    ('reader_init_fd', 'mtbl/reader.c', 'mtbl_reader_init_fd', ALL, ['C19', 'C18']),
     ('reader_init_madvise', 'mtbl/reader.c', 'reader_init_madvise', ALL, ['C12']),
     ('reader_get_block', 'mtbl/reader.c', 'get_block', ALL, ['C11', 'C12']),
     ('reader_needs_index_seek', 'mtbl/reader.c', 'needs_index_seek', ALL, ['C03']),
@@ -110,11 +110,11 @@ TIES = [
     ('block_decode_entry', 'mtbl/block.c', 'decode_entry', ALL, ['C11']),
     ('block_iter_seek', 'mtbl/block.c', 'block_iter_seek', ALL, ['C03']),
     ('writer_add', 'mtbl/writer.c', 'mtbl_writer_add', ALL, ['C08', 'C09']),
-    ('writer_finish', 'mtbl/writer.c', '_mtbl_writer_finish', ALL, ['C09', 'C10']),
+    ('writer_finish', 'mtbl/writer.c', '_mtbl_writer_finish', ALL, ['C09', 'C10', 'C18']),
     ('writer_write_data_block', 'mtbl/writer.c', '_mtbl_writer_write_data_block', ALL, ['C09', 'C10']),
     ('writer_write_all', 'mtbl/writer.c', '_write_all', ALL, ['C20']),
-    ('writer_init', 'mtbl/writer.c', 'mtbl_writer_init', ALL, ['C08']),
-    ('writer_init_fd', 'mtbl/writer.c', 'mtbl_writer_init_fd', ALL, ['C10']),
+    ('writer_init', 'mtbl/writer.c', 'mtbl_writer_init', ALL, ['C08', 'C18']),
+    ('writer_init_fd', 'mtbl/writer.c', 'mtbl_writer_init_fd', ALL, ['C10', 'C18']),
     ('writer_set_block_size', 'mtbl/writer.c', 'mtbl_writer_options_set_block_size', ALL, ['C10']),
     ('bb_add', 'mtbl/block_builder.c', 'block_builder_add', ALL, ['C09']),
     ('bb_finish', 'mtbl/block_builder.c', 'block_builder_finish', ALL, ['C09']),
@@ -129,7 +129,7 @@ TIES = [
     ('tp_resultq_finish', 'mtbl/threadpool.c', 'resultq_finish', ALL, ['C13', 'C14']),
     ('tp_resultq_destroy', 'mtbl/threadpool.c', 'resultq_destroy', ALL, ['C13', 'C14']),
     ('tp_result_worker', 'mtbl/threadpool.c', 'result_worker', ALL, ['C13', 'C14']),
-    ('tp_rh_destroy', 'mtbl/threadpool.c', 'result_handler_destroy', ALL, ['C13', 'C14']),
+    ('tp_rh_destroy', 'mtbl/threadpool.c', 'result_handler_destroy', ALL, ['C13', 'C14', 'C18']),
     ('comp_zlib', 'mtbl/compression.c', '_mtbl_compress_zlib', ALL, ['C15']),
     ('comp_lz4', 'mtbl/compression.c', '_mtbl_compress_lz4', ALL, ['C15']),
     ('comp_lz4hc', 'mtbl/compression.c', '_mtbl_compress_lz4hc', ALL, ['C15']),
@@ -145,6 +145,23 @@ TIES = [
     ('dump_dump', 'src/mtbl_dump.c', 'dump', ALL, ['C01']),
     ('verify_data_blocks', 'src/mtbl_verify.c', 'verify_data_blocks', ALL, ['C12']),
     ('verify_file', 'src/mtbl_verify.c', 'verify_file', ALL, ['C12']),
+    ('writer_destroy', 'mtbl/writer.c', 'mtbl_writer_destroy', ALL, ['C18']),
+    ('reader_init', 'mtbl/reader.c', 'mtbl_reader_init', ALL, ['C18']),
+    ('reader_destroy', 'mtbl/reader.c', 'mtbl_reader_destroy', ALL, ['C18']),
+    ('reader_iter_free', 'mtbl/reader.c', 'reader_iter_free', ALL, ['C18']),
+    ('merger_destroy', 'mtbl/merger.c', 'mtbl_merger_destroy', ALL, ['C18']),
+    ('merger_iter_free', 'mtbl/merger.c', 'merger_iter_free', ALL, ['C18']),
+    ('sorter_init', 'mtbl/sorter.c', 'mtbl_sorter_init', ALL, ['C18']),
+    ('sorter_iter_free', 'mtbl/sorter.c', 'sorter_iter_free', ALL, ['C18']),
+    ('fileset_init', 'mtbl/fileset.c', 'mtbl_fileset_init', ALL, ['C18']),
+    ('fileset_dup', 'mtbl/fileset.c', 'mtbl_fileset_dup', ALL, ['C18']),
+    ('fileset_destroy', 'mtbl/fileset.c', 'mtbl_fileset_destroy', ALL, ['C18']),
+    ('my_fileset_destroy', 'libmy/my_fileset.c', 'my_fileset_destroy', ALL, ['C18']),
+    ('iter_destroy', 'mtbl/iter.c', 'mtbl_iter_destroy', ALL, ['C18']),
+    ('source_write', 'mtbl/source.c', 'mtbl_source_write', ALL, ['C18']),
+    ('tp_rh_init', 'mtbl/threadpool.c', 'result_handler_init', ALL, ['C18']),
+    ('tp_pool_init', 'mtbl/threadpool.c', 'mtbl_threadpool_init', ALL, ['C18']),
+    ('tp_pool_destroy', 'mtbl/threadpool.c', 'mtbl_threadpool_destroy', ALL, ['C18']),
 ]
 
 def coq_str(s):
